@@ -323,7 +323,7 @@ func schurFormOK(t *vlib.T, tm M, wr, wi []float64, ctx string) {
 				return
 			}
 			a, b, c, d := tm.at(i, i), tm.at(i, i+1), tm.at(i+1, i), tm.at(i+1, i+1)
-			if a != d || !(b*c < 0) {
+			if a != d || !oppositeSigns(b, c) {
 				t.Failf("2x2 block at %d not standardised: [[%v %v][%v %v]] [%s]", i, a, b, c, d, ctx)
 			}
 			im := math.Sqrt(math.Abs(b)) * math.Sqrt(math.Abs(c))
